@@ -36,7 +36,7 @@ def types_file(scratch, tier, res=None, names=False):
         vlib.require_tlc_ok(rn, "GoTypes_gen_names.cfg")
         seenn = {json.dumps(t, sort_keys=True) for t in types}
         extra = [t for t in (rn.prints.get("TYPE") or []) if json.dumps(t, sort_keys=True) not in seenn
-                 and any(s.startswith("struct-named:") for s in t["steps"])]
+                 and any(s.startswith("struct-named:") or s == "map_p" for s in t["steps"])]
         if len(extra) < 50:
             raise vlib.Infra("GoTypes_gen_names.cfg produced only %d named-member types" % len(extra))
         types += extra
@@ -53,7 +53,7 @@ def types_file(scratch, tier, res=None, names=False):
         r.generated += r2.generated
         r.distinct += r2.distinct
     if os.environ.get("VERIF_ONLY_NAMES") == "1":   # debugging aid: the named-member types (and the bare leaves) alone
-        types = [t for t in types if len(t["steps"]) == 0 or any(s.startswith("struct-named:") for s in t["steps"])]
+        types = [t for t in types if len(t["steps"]) == 0 or any(s.startswith("struct-named:") or s == "map_p" for s in t["steps"])]
     elif len(types) < 1000:
         raise vlib.Infra("GoTypes produced only %d types" % len(types))
     types.sort(key=lambda t: (len(t["steps"]), t["leaf"], t["steps"]))
@@ -200,7 +200,7 @@ def witnesses(scratch, binary, out):
 def run_typed(prop, check, tier, scratch, record, level, rule, assume, describe_fn, extra=None, with_table=False, with_witnesses=False,
               extra_tlc=()):
     t0 = time.time()
-    tp, tres, ntypes = types_file(scratch, tier, names=check in ("C01", "C13"))
+    tp, tres, ntypes = types_file(scratch, tier, names=check in ("C01", "C13", "C03"))
     tl = [tres] + list(extra_tlc)
     binary = vlib.build_harness(scratch)
     params = dict(types=tp, rand_modes=2 if tier == "quick" else 3, check=check)
